@@ -544,7 +544,24 @@ func (w *World) checkGov(h int64, f *blockFacts) {
 		w.adoptGov = false
 	}
 	if d := govDiff(got, snap.Gov); d != "" {
-		v := w.violate("diff.govparams", f.propsFor("govparams", nil), h, "governance parameters: %s", d)
+		// the parameters in force differ from what governance decided: C15, and the property each differing
+		// parameter governs
+		gp := f.propsFor("govparams", nil)
+		for name, prop := range map[string]string{"lazyRewardBlocks": "C12", "rewardPerPower": "C13", "slashRatio": "C14",
+			"signedBlocksWindow": "C14", "minSignedBlocks": "C14", "gasPrice": "C16", "minTrxGas": "C16",
+			"maxValidatorCnt": "C10", "minValidatorStake": "C10"} {
+			if strings.Contains(d, name+" node=") {
+				dup := false
+				for _, x := range gp {
+					dup = dup || x == prop
+				}
+				if !dup {
+					gp = append(gp, prop)
+				}
+			}
+		}
+		sort.Strings(gp)
+		v := w.violate("diff.govparams", gp, h, "governance parameters: %s", d)
 		if w.Probes.C["gov.two-applied-one-block"] > 0 {
 			v.Shape = "two-proposals-applied-one-block"
 		}
@@ -923,7 +940,7 @@ func (w *World) updateEvmBurn(h int64, snap *Snapshot) {
 	exp.Sub(exp, m.SlashBurn)
 	burn := new(big.Int).Sub(exp, total)
 	if burn.Cmp(m.EvmBurn) != 0 {
-		if len(w.Viol) > 0 {
+		if w.modelOffTrack() {
 			return // the model is off the node's track already; its own totals mean nothing any more
 		}
 		if burn.Cmp(m.EvmBurn) < 0 || len(m.Destroyed) == 0 {
